@@ -24,7 +24,7 @@ def pooled_blocks(env, tier):
             case.weights = None
         pr = pl.PoolRun(env, kind, case, names, core.SEED + q)
         for s in range(3):
-            tr, outs, _ = pr.evaluate("pool", P=rnd.choice([2, 3]), sched_seed=q * 7 + s, switch_prob=rnd.choice([0.05, 0.3]))
+            tr, outs, _ = pr.evaluate("pool", P=rnd.choice([2, 3, 4, 6, 8]), sched_seed=q * 7 + s, switch_prob=rnd.choice([0.05, 0.3]))
             if outs is not None:
                 c16.record_outputs(env, OWN, pr, outs)
 
@@ -35,7 +35,7 @@ def run(chk, tier):
     c03.GENS[OWN](env, tier)
     pooled_blocks(env, tier)
     c03.judge(chk, env.rec, OWN)
-    chk.rule = c03.RULE + "; plus pooled evaluations (pool sizes 2-3, seeded bytecode schedules) judged block by block"
+    chk.rule = c03.RULE + "; plus pooled evaluations (pool sizes 2-8, also larger than the number of sub-cubes; seeded bytecode schedules) judged block by block"
     chk.assumptions += c03.ASSUME
 
 
